@@ -387,10 +387,13 @@ func newClient(p Persistence, config *Config) *Client {
 // Closing an already closed Client has no effect.
 func (c *Client) Close() error {
 	// halt context (interrupts dial & connect)
+	verifEv("cl.enter")
+	verifEv("cancel")
 	c.cancel()
 
 	// block connection control
 	conn, ok := <-c.connSem
+	verifEv("cl.csRecv", vb(ok), vb(conn != nil))
 	if !ok {
 		// already closed
 		return nil
@@ -400,24 +403,29 @@ func (c *Client) Close() error {
 		blockSignalChan(c.onlineSig)
 		clearSignalChan(c.offlineSig)
 		// signal closed
+		verifEv("closeW")
 		close(c.writeSem)
+		verifEv("closeC")
 		close(c.connSem)
 	}()
 
 	// block write, close connection
 	select {
 	case conn = <-c.writeSem:
+		verifEv("cl.wsRecv", 1, vk(conn))
 		switch conn {
 		case connPending, connDown:
 			return nil // already offline
 		}
 		return conn.Close()
 	default: // no wait for write
+		verifEv("default")
 		var err error
 		if conn != nil {
 			err = conn.Close() // may interrupt write
 		}
 		<-c.writeSem // won't block for long now
+		verifEv("wsRecvAny")
 		return err
 	}
 }
@@ -433,10 +441,13 @@ func (c *Client) Close() error {
 // whether the operation actually succeeded.
 func (c *Client) Disconnect(quit <-chan struct{}) error {
 	// halt context (interrupts dial & connect)
+	verifEv("di.enter")
+	verifEv("cancel")
 	c.cancel()
 
 	// block connection control
 	conn, ok := <-c.connSem
+	verifEv("di.csRecv", vb(ok), vb(conn != nil))
 	if !ok {
 		return fmt.Errorf("%w; DISCONNECT not send", ErrClosed)
 	}
@@ -445,20 +456,25 @@ func (c *Client) Disconnect(quit <-chan struct{}) error {
 		blockSignalChan(c.onlineSig)
 		clearSignalChan(c.offlineSig)
 		// signal closed
+		verifEv("closeW")
 		close(c.writeSem)
+		verifEv("closeC")
 		close(c.connSem)
 	}()
 
 	// block write, send disconnect, close connection
 	select {
 	case <-quit:
+		verifEv("quit")
 		if conn != nil {
 			conn.Close() // may interrupt write
 		}
 		<-c.writeSem // won't block for long now
+		verifEv("wsRecvAny")
 		return fmt.Errorf("%w; DISCONNECT not send", ErrCanceled)
 
 	case conn = <-c.writeSem:
+		verifEv("di.wsRecv", 1, vk(conn))
 		switch conn {
 		case connPending, connDown:
 			return fmt.Errorf("%w; DISCONNECT not send", ErrDown)
@@ -468,6 +484,7 @@ func (c *Client) Disconnect(quit <-chan struct{}) error {
 		// any more Control Packets on that Network Connection.”
 		// — MQTT Version 3.1.1, conformance statement MQTT-3.14.4-2
 		writeErr := writeTo(conn, packetDISCONNECT, c.PauseTimeout)
+		verifEv("io", vb(writeErr == nil))
 		closeErr := conn.Close()
 		if writeErr != nil {
 			return fmt.Errorf("%w; DISCONNECT lost", errors.Join(ErrSubmit, writeErr))
@@ -481,20 +498,25 @@ func (c *Client) Disconnect(quit <-chan struct{}) error {
 
 func (c *Client) termCallbacks() {
 	var wg sync.WaitGroup
+	verifEv("tc.start")
 
 	wg.Add(1)
 	go func() {
 		defer wg.Done()
+		verifEv("tc.t.start", 0)
 
 		_, ok := <-c.atLeastOnce.seqSem
+		verifEv("seqRecv", 0, vb(ok))
 		if !ok { // already terminated
 			return
 		}
+		verifEv("closeS", 0)
 		close(c.atLeastOnce.seqSem) // terminate
 
 		// flush queue
 		err := fmt.Errorf("%w; PUBLISH not confirmed", ErrClosed)
 		// seqSem lock required for close:
+		verifEv("closeQ", 0)
 		close(c.atLeastOnce.queue)
 		for ch := range c.atLeastOnce.queue {
 			ch <- err // won't block
@@ -504,16 +526,20 @@ func (c *Client) termCallbacks() {
 	wg.Add(1)
 	go func() {
 		defer wg.Done()
+		verifEv("tc.t.start", 1)
 
 		_, ok := <-c.exactlyOnce.seqSem
+		verifEv("seqRecv", 1, vb(ok))
 		if !ok { // already terminated
 			return
 		}
+		verifEv("closeS", 1)
 		close(c.exactlyOnce.seqSem) // terminate
 
 		// flush queue
 		err := fmt.Errorf("%w; PUBLISH not confirmed", ErrClosed)
 		// seqSem lock required for close:
+		verifEv("closeQ", 1)
 		close(c.exactlyOnce.queue)
 		for ch := range c.exactlyOnce.queue {
 			ch <- err // won't block
@@ -527,6 +553,7 @@ func (c *Client) termCallbacks() {
 		break
 	}
 	wg.Wait()
+	verifEv("ret")
 
 	c.unorderedTxs.breakAll()
 }
@@ -567,21 +594,26 @@ func blockSignalChan(ch chan chan struct{}) {
 }
 
 func (c *Client) toOffline() {
+	verifEv("offline")
 	select {
 	case _, ok := <-c.writeSem:
+		verifEv("to.wsRecv", vb(ok), 0)
 		if !ok {
 			return // ErrClosed
 		}
 		c.readConn.Close()
 	default:
+		verifEv("default")
 		c.readConn.Close() // interrupt write
 		_, ok := <-c.writeSem
+		verifEv("to.wsRecv", vb(ok), 0)
 		if !ok {
 			return // ErrClosed
 		}
 	}
 	blockSignalChan(c.onlineSig)
 	clearSignalChan(c.offlineSig)
+	verifEv("wsSend", 0)
 	c.writeSem <- connPending
 
 	c.readConn = nil
@@ -606,15 +638,19 @@ func (c *Client) lockWrite(quit <-chan struct{}) (net.Conn, error) {
 	for {
 		select {
 		case <-quit:
+			verifEv("quit")
 			return nil, ErrCanceled
 		case conn, ok := <-c.writeSem: // lock
+			verifEv("wsRecv", vb(ok), vk(conn))
 			switch {
 			case !ok:
 				return nil, ErrClosed
 			case conn == connDown:
+				verifEv("wsSend", 1)
 				c.writeSem <- connDown // unlock
 				return nil, ErrDown
 			case conn == connPending:
+				verifEv("wsSend", 0)
 				c.writeSem <- connPending // unlock
 				break
 			default:
@@ -627,10 +663,13 @@ func (c *Client) lockWrite(quit <-chan struct{}) (net.Conn, error) {
 			}
 			select {
 			case <-c.ctx.Done():
+				verifEv("ctx", 1)
 				return nil, ErrClosed
 			case <-c.Online():
+				verifEv("wake")
 				break // connect succeeded
 			case <-checkConnect.C:
+				verifEv("wake")
 				break // connect may have failed
 			}
 		}
@@ -641,20 +680,24 @@ var connClosedErrors = []error{net.ErrClosed, io.ErrClosedPipe}
 
 // Write submits the packet. Keep synchronised with writeBuffers!
 func (c *Client) write(quit <-chan struct{}, p []byte) error {
+	verifEv("w.enter")
 	conn, err := c.lockWrite(quit)
 	if err != nil {
 		return err
 	}
 
 	err = writeTo(conn, p, c.PauseTimeout)
+	verifEv("io", vb(err == nil))
 	if err != nil {
 		if !nonNilIsAny(err, connClosedErrors) {
 			conn.Close() // signal read routine
 		}
+		verifEv("wsSend", 0)
 		c.writeSem <- connPending // unlock write; pending connect
 		return errors.Join(ErrSubmit, err)
 	}
 
+	verifEv("wsSend", 2)
 	c.writeSem <- conn // unlock write
 	return nil
 }
@@ -664,44 +707,53 @@ func (c *Client) write(quit <-chan struct{}, p []byte) error {
 func (c *Client) writeNoWait(p []byte) error {
 	// lock write
 	conn, ok := <-c.writeSem
+	verifEv("wsRecv", vb(ok), vk(conn))
 	switch {
 	case !ok:
 		return ErrClosed
 	case conn == connDown, conn == connPending:
+		verifEv("wsSend", vk(conn))
 		c.writeSem <- conn // unlock
 		return ErrDown
 	}
 
 	err := writeTo(conn, p, c.PauseTimeout)
+	verifEv("io", vb(err == nil))
 	if err != nil {
 		if !nonNilIsAny(err, connClosedErrors) {
 			conn.Close() // signal read routine
 		}
+		verifEv("wsSend", 0)
 		c.writeSem <- connPending // unlock write; pending connect
 		return errors.Join(ErrSubmit, err)
 	}
 
+	verifEv("wsSend", 2)
 	c.writeSem <- conn // unlock write
 	return nil
 }
 
 // WriteBuffers submits the packet. Keep synchronised with write!
 func (c *Client) writeBuffers(quit <-chan struct{}, p net.Buffers) error {
+	verifEv("w.enter")
 	conn, err := c.lockWrite(quit)
 	if err != nil {
 		return err
 	}
 
 	err = writeBuffersTo(conn, p, c.PauseTimeout)
+	verifEv("io", vb(err == nil))
 	if err != nil {
 		if !nonNilIsAny(err, connClosedErrors) {
 			conn.Close() // signal read routine
 		}
 		// unlock write; pending connect
+		verifEv("wsSend", 0)
 		c.writeSem <- connPending
 		return errors.Join(ErrSubmit, err)
 	}
 
+	verifEv("wsSend", 2)
 	c.writeSem <- conn // unlock write
 	return nil
 }
@@ -711,25 +763,30 @@ func (c *Client) writeBuffers(quit <-chan struct{}, p net.Buffers) error {
 func (c *Client) writeBuffersNoWait(p net.Buffers) error {
 	// lock write
 	conn, ok := <-c.writeSem
+	verifEv("wsRecv", vb(ok), vk(conn))
 	switch {
 	case !ok:
 		return ErrClosed
 	case conn == connDown, conn == connPending:
+		verifEv("wsSend", vk(conn))
 		c.writeSem <- conn // unlock
 		return ErrDown
 	}
 
 	// transfer
 	err := writeBuffersTo(conn, p, c.PauseTimeout)
+	verifEv("io", vb(err == nil))
 	if err != nil {
 		if !nonNilIsAny(err, connClosedErrors) {
 			conn.Close() // signal read routine
 		}
 		// unlock write; pending connect
+		verifEv("wsSend", 0)
 		c.writeSem <- connPending
 		return errors.Join(ErrSubmit, err)
 	}
 
+	verifEv("wsSend", 2)
 	c.writeSem <- conn // unlock write
 	return nil
 }
@@ -918,6 +975,7 @@ func (c *Client) discard(n int) error {
 // The current connection must be closed in case of a reconnect.
 func (c *Client) connect() error {
 	previousConn, ok := <-c.connSem // locks connection control
+	verifEv("cn.csRecv", vb(ok), vb(previousConn != nil))
 	if !ok {
 		return ErrClosed
 	}
@@ -925,7 +983,9 @@ func (c *Client) connect() error {
 	// connSem lock is required to close any of them.
 
 	// Close and Disconnect cancel before they lock.
+	verifEv("ctx", vb(c.ctx.Err() != nil))
 	if c.ctx.Err() != nil {
+		verifEv("csSend", vb(previousConn != nil))
 		c.connSem <- previousConn // unlock
 		return ErrClosed
 	}
@@ -942,39 +1002,54 @@ func (c *Client) connect() error {
 
 	case context.Canceled:
 		// Close or Disconnect interrupted dial
+		verifEv("csSend", vb(previousConn != nil))
 		c.connSem <- previousConn // unlock
 		return ErrClosed
 
 	default:
 		// ErrDown after failed connect
 		<-c.writeSem
+		verifEv("wsRecvAny")
+		verifEv("wsSend", 1)
 		c.writeSem <- connDown
 
+		verifEv("csSend", vb(previousConn != nil))
 		c.connSem <- previousConn // unlock
 		return err
 	}
 
 	// lock sequences until resubmission (checks) complete
 	atLeastOnceSeq := <-c.atLeastOnce.seqSem
+	verifEv("seqRecvAny", 0)
 	exactlyOnceSeq := <-c.exactlyOnce.seqSem
+	verifEv("seqRecvAny", 1)
 
 	// lock write in sequence locks, conform submitPersisted
 	<-c.writeSem
+	verifEv("wsRecvAny")
 
+	verifEv("csSend", 1)
 	c.connSem <- conn // unlock (for interruption of resends)
 
 	err = c.resend(conn, c.orderedTxs.Acked, &atLeastOnceSeq, atLeastOnceIDSpace)
+	verifEv("io", vb(err == nil))
+	verifEv("seqSend", 0)
 	c.atLeastOnce.seqSem <- atLeastOnceSeq // unlock
 	if err != nil {
+		verifEv("seqSend", 1)
 		c.exactlyOnce.seqSem <- exactlyOnceSeq // unlock
 		conn.Close()
+		verifEv("wsSend", 1)
 		c.writeSem <- connDown
 		return err
 	}
 	err = c.resend(conn, c.orderedTxs.Completed, &exactlyOnceSeq, exactlyOnceIDSpace)
+	verifEv("io", vb(err == nil))
+	verifEv("seqSend", 1)
 	c.exactlyOnce.seqSem <- exactlyOnceSeq // unlock
 	if err != nil {
 		conn.Close()
+		verifEv("wsSend", 1)
 		c.writeSem <- connDown
 		return err
 	}
@@ -983,6 +1058,7 @@ func (c *Client) connect() error {
 	blockSignalChan(c.offlineSig)
 	clearSignalChan(c.onlineSig)
 	// release
+	verifEv("wsSend", 2)
 	c.writeSem <- conn
 	c.readConn = conn
 	c.bufr = bufr
@@ -993,6 +1069,9 @@ func (c *Client) connect() error {
 
 func (c *Client) dialAndConnect(config *Config) (net.Conn, *bufio.Reader, error) {
 	clientID, err := c.persistence.Load(clientIDKey)
+	if err != nil {
+		verifEv("io", 0)
+	}
 	if err != nil {
 		return nil, nil, err
 	}
@@ -1005,6 +1084,7 @@ func (c *Client) dialAndConnect(config *Config) (net.Conn, *bufio.Reader, error)
 		defer cancel()
 	}
 	conn, err := c.Dialer(ctx)
+	verifEv("dc.dial", vb(err == nil), vb(c.ctx.Err() != nil))
 	if err != nil {
 		if e := c.ctx.Err(); e != nil {
 			return nil, nil, e
@@ -1021,20 +1101,28 @@ func (c *Client) dialAndConnect(config *Config) (net.Conn, *bufio.Reader, error)
 	abort := make(chan error, 1)
 	go func() {
 		defer close(abort)
+		defer verifEv("abortClose")
+		verifEv("dc.abort.start")
 		select {
 		case <-c.ctx.Done():
+			verifEv("ctx", 1)
 			conn.Close() // interrupt
+			verifEv("abortSend")
 			abort <- ErrClosed
 		case <-done:
+			verifEv("doneRecv")
 			break
 		}
 	}()
 
 	bufr, err := c.handshake(conn, config, clientID)
+	verifEv("io", vb(err == nil))
 	// ⚠️ delayed error check
 
+	verifEv("doneClose")
 	close(done) // won't block, even when aborted
 	e := <-abort
+	verifEv("abortRecv", vb(e != nil))
 	if e != nil {
 		// abort closed connection
 		return nil, nil, e
@@ -1204,6 +1292,7 @@ func (c *Client) ReadBackoff(err error) <-chan struct{} {
 // Invocation should apply some backoff after errors other than BigMessage.
 // Use of ReadBackoff comes recommended. See the Client example for a setup.
 func (c *Client) ReadSlices() (message, topic []byte, err error) {
+	verifEv("rs.enter")
 	message, topic, err = c.readSlices()
 	switch {
 	case err == c.bigMessage: // either nil or BigMessage
